@@ -84,6 +84,15 @@ def case_strategy(tier):
                 "inline": draw(st.booleans())}
         codes = [l["code"] for l in s["langs"]]
         pick = draw(st.sampled_from([None] + codes))
+        if w != "sami" and draw(st.integers(0, 3)) == 0:
+            # the domain does not require sorted, non-overlapping captions (SAMI cannot express
+            # overlap, so it keeps the sorted shape): shuffle, and stretch one caption over others
+            for l in s["langs"]:
+                l["cues"] = draw(st.permutations(l["cues"]))
+                if l["cues"] and draw(st.booleans()):
+                    k = draw(st.integers(0, len(l["cues"]) - 1))
+                    l["cues"][k] = dict(l["cues"][k], end=min(gen.DAY - 1, l["cues"][k]["end"] + draw(
+                        st.sampled_from([gen.SEC, gen.MIN, gen.HOUR, 2 * gen.HOUR]))))
         case = {"writer": w, "set": s, "opts": opts, "lang": pick}
         if draw(st.integers(0, 3)) == 0:
             # the writer object has been used before, on another set
